@@ -2,9 +2,16 @@
    tapes are compared with the model; recorded histories of rounds of the real
    MeasureClockOffsetSCION are replayed against the model (path of every
    client, resets, request forms, filter values, state after the round,
-   reported offset, words consumed) and the C15 property oracle. *)
+   reported offset, words consumed) and the C15 property oracle.  In the
+   mp.pather kinds the offered paths of every round are what the real
+   scion.Pather returned after scripted refreshes: they are compared with the
+   model of the Pather, and the round is judged against the paths the scripted
+   daemon last reported (C15_pather_round_ok).
+   A client without a filter reports the raw offsets of its exchanges, which
+   are not scripted: the model is given the offsets that were observed (their
+   number and the reported midpoint are still checked). *)
 From Coq Require Import ZArith List String Bool.
-From ST Require Import Base.Ints Base.Value Model.Sample Model.PathAssign Model.PathOracle Extract.GlueBase.
+From ST Require Import Base.Ints Base.Value Model.Sample Model.PathAssign Model.PathOracle Model.Pather Extract.GlueBase.
 Import ListNotations.
 Open Scope string_scope.
 Open Scope Z_scope.
@@ -106,9 +113,9 @@ Fixpoint parse_cls (l : list value) : option (list cl_obs) :=
 Definition zbool (b : bool) : Z := if b then 1 else 0.
 Definition zlist_eqb (a b : list Z) : bool := list_eqb Z.eqb a b.
 
-(* model's expectation for one client against what was observed *)
-Definition cl_agree (hasf : bool) (m : client_obs) (o : cl_obs) : bool :=
-  zlist_eqb (match co_path m with Some p => [Z.of_nat p] | None => [] end) (lo_hops o)
+(* model's expectation for one client against what was observed; mids: identity (next hop) of every offered path *)
+Definition cl_agree (mids : list Z) (hasf : bool) (m : client_obs) (o : cl_obs) : bool :=
+  zlist_eqb (match co_path m with Some p => [nth p mids (-1)] | None => [] end) (lo_hops o)
   && (lo_resets o =? zbool (hasf && co_reset m))
   && zlist_eqb (map zbool (co_reqs m)) (lo_reqs o)
   && zlist_eqb (co_vals m) (lo_vals o)
@@ -126,79 +133,186 @@ Fixpoint mk_cobs (pre : list (bool * Z)) (hasf : list bool) (os : list cl_obs) :
   | _, _, _ => []
   end.
 
-Record hacc := { h_states : option (list cstate); h_pre : list (bool * Z); h_agree : bool; h_oracle : bool }.
+(* the values the clients' filters return: scripted for a client with a filter, the observed raw offsets otherwise *)
+Fixpoint model_vss (hasf : list bool) (vss : list (list Z)) (os : list cl_obs) : list (list Z) :=
+  match hasf, os with
+  | f :: hasf', o :: os' => (if f then hd [] vss else lo_vals o) :: model_vss hasf' (tl vss) os'
+  | _, _ => []
+  end.
 
-Definition hist_step (hasf : list bool) (a : hacc) (rin : round_in) (rob : value) : hacc :=
+Record hacc := { h_states : option (list cstate); h_pre : list (bool * Z); h_agree : bool; h_oracle : bool;
+                 h_pst : pstate; h_truth : list dpath }.
+
+Definition hfail (a : hacc) : hacc :=
+  {| h_states := None; h_pre := h_pre a; h_agree := false; h_oracle := h_oracle a; h_pst := h_pst a; h_truth := h_truth a |}.
+
+(* one round.  moff: the paths the model offers (identity, fingerprint); truth: the paths the oracle counts as
+   available (identity, fingerprint) *)
+Definition hist_step (hasf : list bool) (a : hacc) (rin : round_in) (moff truth : list dpath) (rob : list value) : hacc :=
   match rob with
-  | VL [VL clv; VZ cls; VZ off; VZ ncons] =>
+  | [VL clv; VZ cls; VZ off; VZ ncons] =>
       match parse_cls clv with
       | Some os =>
+          let mfps := map snd moff in
+          let mids := map fst moff in
           let orc := Nat.eqb (length os) (length (h_pre a))
-                     && C15_round_ok (ri_fps rin) (mk_cobs (h_pre a) hasf os) cls off in
+                     && C15_pather_round_ok truth (mk_cobs (h_pre a) hasf os) cls off in
           (* state before the next round, for the oracle: in interleaved mode as the getter says; the path of
              its previous exchange is the one its last accepted exchange was seen on *)
           let pre' := map (fun po : (bool * Z) * cl_obs =>
                              let o := snd po in
                              (zb (lo_ilv o),
                               match lo_vals o, lo_hops o with
-                              | _ :: _, [p] => nth (Z.to_nat p) (ri_fps rin) (-1)
+                              | _ :: _, [p] => let i := index_of p (map fst truth) 0 in
+                                               if i <? 0 then -1 else nth (Z.to_nat i) (map snd truth) (-1)
                               | _, _ => snd (fst po)
                               end)) (combine (h_pre a) os) in
+          let vss := model_vss hasf (ri_vss rin) os in
           let '(st', agr) :=
             match h_states a with
             | None => (None, false)
             | Some cs =>
-                match run_round (ri_fps rin) cs (ri_d rin) (ri_tape rin) (ri_mss rin) (ri_vss rin) with
-                | ROk mobs moff rest =>
+                match run_round mfps cs (ri_d rin) (ri_tape rin) (ri_mss rin) vss with
+                | ROk mobs moff' rest =>
                     (Some (map co_post mobs),
-                     (cls =? 0) && (off =? moff) && (ncons =? consumed (ri_tape rin) rest)
-                     && all2 (fun hm o => cl_agree (fst hm) (snd hm) o) (combine hasf mobs) os)
+                     (cls =? 0) && (off =? moff') && (ncons =? consumed (ri_tape rin) rest)
+                     && all2 (fun hm o => cl_agree mids (fst hm) (snd hm) o) (combine hasf mobs) os)
                 | RNoMeas mobs rest =>
                     (Some (map co_post mobs),
                      (cls =? 4) && (ncons =? consumed (ri_tape rin) rest)
-                     && all2 (fun hm o => cl_agree (fst hm) (snd hm) o) (combine hasf mobs) os)
+                     && all2 (fun hm o => cl_agree mids (fst hm) (snd hm) o) (combine hasf mobs) os)
                 | RNoPath post resets rest =>
                     (Some post,
                      (cls =? 1) && (ncons =? consumed (ri_tape rin) rest)
-                     && all2 (fun hm o => cl_agree (fst hm) (snd hm) o)
+                     && all2 (fun hm o => cl_agree mids (fst hm) (snd hm) o)
                           (combine hasf (map (fun sr : cstate * bool => idle_obs (fst sr) (snd sr)) (combine cs resets))) os)
                 | RFail => (None, false)
                 end
             end in
-          {| h_states := st'; h_pre := pre'; h_agree := h_agree a && agr; h_oracle := h_oracle a && orc |}
-      | None => {| h_states := None; h_pre := h_pre a; h_agree := false; h_oracle := h_oracle a |}
+          {| h_states := st'; h_pre := pre'; h_agree := h_agree a && agr; h_oracle := h_oracle a && orc;
+             h_pst := h_pst a; h_truth := h_truth a |}
+      | None => hfail a
       end
-  | _ => {| h_states := None; h_pre := h_pre a; h_agree := false; h_oracle := h_oracle a |}
+  | _ => hfail a
   end.
+
+(* plain histories: the offered paths are given; path k is reached through next hop k *)
+Definition numbered (fps : list Z) : list dpath := combine (map Z.of_nat (seq 0 (length fps))) fps.
 
 Fixpoint hist_run (hasf : list bool) (a : hacc) (rins : list value) (robs : list value) : hacc :=
   match rins, robs with
   | [], [] => a
-  | ri :: rins', ro :: robs' =>
+  | ri :: rins', VL ro :: robs' =>
       match parse_round ri with
-      | Some rin => hist_run hasf (hist_step hasf a rin ro) rins' robs'
-      | None => {| h_states := None; h_pre := h_pre a; h_agree := false; h_oracle := h_oracle a |}
+      | Some rin => let ps := numbered (ri_fps rin) in hist_run hasf (hist_step hasf a rin ps ps ro) rins' robs'
+      | None => hfail a
       end
-  | _, _ => {| h_states := None; h_pre := h_pre a; h_agree := false; h_oracle := h_oracle a |}
+  | _, _ => hfail a
   end.
 
 Fixpoint parse_cfg (l : list value) : option (list (bool * bool)) :=
   match l with
   | [] => Some []
-  | VL [VZ en; VZ hf] :: r => match parse_cfg r with Some c => Some ((zb en, zb hf) :: c) | None => None end
+  | VL (VZ en :: VZ hf :: _) :: r => match parse_cfg r with Some c => Some ((zb en, zb hf) :: c) | None => None end
   | _ => None
   end.
+
+Definition hinit (c : list (bool * bool)) : hacc :=
+  {| h_states := Some (map (fun eh => fresh_client (fst eh)) c);
+     h_pre := map (fun _ => (false, 0)) c; h_agree := true; h_oracle := true; h_pst := []; h_truth := [] |}.
 
 Definition glue_hist (a o : list value) : option verdict :=
   match a, o with
   | [VL cfg; VL rins], [VL robs] =>
       match parse_cfg cfg with
       | Some c =>
-          let init := {| h_states := Some (map (fun eh => fresh_client (fst eh)) c);
-                         h_pre := map (fun _ => (false, 0)) c; h_agree := true; h_oracle := true |} in
-          let r := hist_run (map snd c) init rins robs in
+          let r := hist_run (map snd c) (hinit c) rins robs in
           Some (relational (h_agree r) (h_oracle r))
       | None => None
+      end
+  | _, _ => None
+  end.
+
+(* ---- histories behind a Pather ---- *)
+(* answers of the scripted daemon: [ia ok [fingerprints]]; the harness gives the paths of one refresh the
+   identities 0, 1, 2, ... in the order of the answers that succeed *)
+Fixpoint with_ids (k : Z) (fps : list Z) : list dpath :=
+  match fps with [] => [] | f :: r => (k, f) :: with_ids (k + 1) r end.
+Fixpoint parse_answers (k : Z) (l : list value) : option (list answer) :=
+  match l with
+  | [] => Some []
+  | VL [VZ ia; VZ ok; VL fps] :: r =>
+      match getZs fps with
+      | Some f =>
+          let k' := if zb ok then k + Z.of_nat (length f) else k in
+          match parse_answers k' r with
+          | Some rest => Some ({| an_ia := ia; an_ok := zb ok; an_paths := if zb ok then with_ids k f else [] |} :: rest)
+          | None => None
+          end
+      | None => None
+      end
+  | _ => None
+  end.
+
+Fixpoint parse_offered (l : list value) : option (list dpath) :=
+  match l with
+  | [] => Some []
+  | VL [VZ k; VZ f] :: r => match parse_offered r with Some ps => Some ((k, f) :: ps) | None => None end
+  | _ => None
+  end.
+Fixpoint dpaths_eqb (a b : list dpath) : bool :=
+  match a, b with
+  | [], [] => true
+  | (k, f) :: a', (k', f') :: b' => (k =? k') && (f =? f') && dpaths_eqb a' b'
+  | _, _ => false
+  end.
+
+(* a round of a pather history: [refresh d tape modes vals] with refresh = [] | [liaok [answers]] *)
+Definition pather_step (hasf : list bool) (dstIAs : list Z) (q : Z) (a : hacc) (ri ro : value) : hacc :=
+  match ri, ro with
+  | VL [VL rf; VZ d; VL tp; VL mss; VL vss], VL (VL offv :: rob) =>
+      match getZs tp, parse_zss mss, parse_zss vss, parse_offered offv with
+      | Some t, Some m, Some vs, Some offered =>
+          let rin := {| ri_fps := []; ri_d := d; ri_tape := t; ri_mss := map (map parse_mode) m; ri_vss := vs |} in
+          let upd := match rf with
+                     | [] => Some (h_pst a, h_truth a)
+                     | [VZ liaok; VL ans] =>
+                         match parse_answers 0 ans with
+                         | Some answers => Some (pather_update (h_pst a) (zb liaok) dstIAs answers,
+                                                 truth_update (h_truth a) (zb liaok) dstIAs answers q)
+                         | None => None
+                         end
+                     | _ => None
+                     end in
+          match upd with
+          | Some (pst, truth) =>
+              let moff := pather_paths pst q in
+              let a1 := {| h_states := h_states a; h_pre := h_pre a;
+                           h_agree := h_agree a && dpaths_eqb moff offered;   (* Paths() returned what the model says *)
+                           h_oracle := h_oracle a; h_pst := pst; h_truth := truth |} in
+              hist_step hasf a1 rin moff truth rob
+          | None => hfail a
+          end
+      | _, _, _, _ => hfail a
+      end
+  | _, _ => hfail a
+  end.
+
+Fixpoint pather_run (hasf : list bool) (dstIAs : list Z) (q : Z) (a : hacc) (rins robs : list value) : hacc :=
+  match rins, robs with
+  | [], [] => a
+  | ri :: rins', ro :: robs' => pather_run hasf dstIAs q (pather_step hasf dstIAs q a ri ro) rins' robs'
+  | _, _ => hfail a
+  end.
+
+Definition glue_pather (a o : list value) : option verdict :=
+  match a, o with
+  | [VL cfg; VL dst; VZ q; VL rins], [VL robs] =>
+      match parse_cfg cfg, getZs dst with
+      | Some c, Some dstIAs =>
+          let r := pather_run (map snd c) dstIAs q (hinit c) rins robs in
+          Some (relational (h_agree r) (h_oracle r))
+      | _, _ => None
       end
   | _, _ => None
   end.
@@ -207,6 +321,8 @@ Definition glue_C15 (k : string) (a o : list value) : option verdict :=
   if is k "rand.intn" then glue_intn a o
   else if is k "rand.sample" then glue_sample a o
   else if is k "mp.hist" then glue_hist a o
+  else if is k "mp.pather" then glue_pather a o
+  else if is k "mp.pather.dupia" then glue_pather a o
   else None.
 
 Definition run_case (k : string) (a o : list value) : verdict := first_some [glue_C15] k a o.
